@@ -11,6 +11,7 @@ import time
 
 ROOT = os.path.dirname(os.path.dirname(os.path.abspath(__file__)))
 REPO = os.environ.get('MPIRE_REPO', '/repo')
+OUT = os.environ.get('VERIF_OUT') or None      # seeded-change runs write their evidence/replays elsewhere
 LEAN = os.path.join(ROOT, 'lean')
 DRIVER = os.path.join(LEAN, '.lake', 'build', 'bin', 'driver')
 ALLOWED_AXIOMS = {'propext', 'Classical.choice', 'Quot.sound'}
@@ -270,8 +271,8 @@ class Check:
         ev = {'property_id': self.prop, 'tier': self.tier, 'seed': self.seed, 'level': self.level,
               'coverage': cov, 'assumptions': self.assumptions, 'wall_s': round(wall, 2),
               'violations': len(self.violations) + (1 if self.broken and not self.violations else 0)}
-        os.makedirs(os.path.join(ROOT, 'evidence'), exist_ok=True)
-        with open(os.path.join(ROOT, 'evidence', self.prop + '.json'), 'w') as f:
+        os.makedirs(os.path.join(OUT or ROOT, 'evidence'), exist_ok=True)
+        with open(os.path.join(OUT or ROOT, 'evidence', self.prop + '.json'), 'w') as f:
             json.dump(ev, f, indent=1, default=str)
         for k in self.known_hits:
             print(f"KNOWN-FINDING: property={self.prop} {k.get('what', '')}")
@@ -281,7 +282,7 @@ class Check:
             path = self._replay({'property': self.prop, 'kind': 'failing-input', 'broken': [b.get('what') for b in self.broken[:5]],
                                  'case': v['case'], 'impl': v['observed'], 'required': v['required'],
                                  'oracle_clause': v['oracle_clause'], 'input_class': v['input_class'],
-                                 'more': self.violations[1:6], 'seed': self.seed, 'tier': self.tier,
+                                 'more': self.violations[1:6], 'one_per_class': self._one_per_class(), 'seed': self.seed, 'tier': self.tier,
                                  'how_to_replay': f'./check {self.prop} --replay <this file>'})
             print(f'VIOLATION property={self.prop} replay={path}')
             rc = 1
@@ -297,11 +298,17 @@ class Check:
               f'known={len(self.known_hits)} wall={wall:.1f}s')
         return rc
 
+    def _one_per_class(self):
+        out = {}
+        for v in self.violations:
+            out.setdefault(v['input_class'], v)
+        return out
+
     def _replay(self, d):
-        os.makedirs(os.path.join(ROOT, 'replays'), exist_ok=True)
+        os.makedirs(os.path.join(OUT or ROOT, 'replays'), exist_ok=True)
         blob = json.dumps(d, indent=1, default=str, sort_keys=True)
         h = hashlib.sha256(blob.encode()).hexdigest()[:10]
         path = os.path.join('replays', f'{self.prop}-{h}.json')
-        with open(os.path.join(ROOT, path), 'w') as f:
+        with open(os.path.join(OUT or ROOT, path), 'w') as f:
             f.write(blob)
         return path
